@@ -250,7 +250,7 @@ Definition needs_up (t : task) : bool :=
   match t with TEstablish _ | TDestroy _ | TRemove _ | TOther => false | _ => true end.
 
 Definition placed (s : sys) (l : nat) (t : task) : Prop :=
-  raw_pinned t = true /\ (forall c, t = TEstablish c -> l <> 0) /\
+  raw_pinned t = true /\ (forall c, (t = TEstablish c -> l <> 0) /\ t <> TSetCb c) /\
   match t with
   | TOther => True
   | TRemove c => l = 0 /\ c < length (s_conns s)
@@ -263,7 +263,7 @@ Record GInv (s : sys) : Prop := {
   gi_rr : s_nio s = 0 \/ s_rr s < s_nio s;
   gi_placed : forall l v t, getl s l = Some v -> In t (q_all v) -> placed s l t;
   gi_calls : NoDup (map a_thr (s_calls s)) /\
-             forall a, In a (s_calls s) -> exists k, getc s (a_conn a) = Some k /\ k_alive k = true /\ k_st k <> Connecting;
+             forall a, In a (s_calls s) -> exists k, getc s (a_conn a) = Some k /\ k_alive k = true /\ k_st k <> Connecting /\ a_api a <> ADtor;
   gi_cli : forall c, s_cliconn s = Some c ->
            s_cli s = true /\ exists k, getc s c = Some k /\ k_alive k = true /\ k_mapped k = true /\
                                        k_ccb k = CbClient /\ up_k k
@@ -457,7 +457,7 @@ Proof.
   - exact G1.
   - exact Gr.
   - intros l v t Hv Hin. apply (placed_mono s _ l t Hext). apply (G2 l v t Hv Hin).
-  - split; [exact G3|]. intros a Hin. destruct (G3' a Hin) as (k1 & Hk1 & Ha1 & Hs1). cbn [s_calls put set_conns] in *.
+  - split; [exact G3|]. intros a Hin. destruct (G3' a Hin) as (k1 & Hk1 & Ha1 & Hs1 & Hd1). cbn [s_calls put set_conns] in *.
     destruct (Nat.eq_dec c0 (a_conn a)) as [E|Hn].
     + exists k0. rewrite <- E, getc_put_eq by (eapply getc_lt, Hk). split; [reflexivity|]. rewrite Ha. rewrite <- E in Hk1.
       assert (k1 = k) by congruence. subst k1. auto.
@@ -593,7 +593,7 @@ Proof.
     + exact G1.
     + exact Gr.
     + intros l v t Hv Hin. apply (placed_mono s _ l t Hext), (G2 l v t Hv Hin).
-    + split; [exact G3|]. intros a Hin. destruct (G3' a Hin) as (k1 & Hk1 & Ha1 & Hs1).
+    + split; [exact G3|]. intros a Hin. destruct (G3' a Hin) as (k1 & Hk1 & Ha1 & Hs1 & Hd1).
       exists k1. rewrite getc_put_neq; [auto|]. intros E. apply (count_calls_zero_notin c _ Hcalls a Hin). auto.
     + intros c1 Hc1. destruct (G4 c1 Hc1) as (Hs & k1 & Hk1 & H1 & H2 & H3 & H4). split; [exact Hs|].
       exists k1. rewrite getc_put_neq; [auto|]. intros E. subst c1. congruence.
@@ -943,7 +943,7 @@ Proof.
   destruct (getl_valid s l G (proj1 (ci_loop s c k HCk))) as [v Ev].
   destruct (enq_fields s l t) as (F1 & F2 & F3 & F4 & F5 & F6).
   split.
-  - apply ginv_enq; [exact G|]. split; [reflexivity|]. split; [intros ? Hx; discriminate Hx|]. exists k. auto.
+  - apply ginv_enq; [exact G|]. split; [reflexivity|]. split; [intros ?; split; [intros Hx; discriminate Hx|discriminate]|]. exists k. auto.
   - intros c1 k1 Hg1. rewrite getc_enq in Hg1. destruct (about c1 t) eqn:Eab.
     + destruct (about_eq c1 t Eab) as [_ Ec]. cbn in Ec. subst c1. rewrite Hg in Hg1. injection Hg1 as <-.
       apply (cinv_alive s (enq s l t) c k k HCk Ha Ha F1 F2 eq_refl (or_introl eq_refl));
@@ -1062,7 +1062,7 @@ Proof.
   destruct full.
   - destruct wc; [|split; assumption]. split; [|apply held_enq, HH].
     apply (enq_plain s (k_loop k) (TUserCb c) HI eq_refl).
-    + split; [reflexivity|]. split; [intros ? Hx; discriminate Hx|]. exists k. auto.
+    + split; [reflexivity|]. split; [intros ?; split; [intros Hx; discriminate Hx|discriminate]|]. exists k. auto.
     + intros _. exists k. auto.
   - pose proof (ci_phase s c k HCk Ha) as Hph.
     assert (Hadd : k_added k = true).
@@ -1215,7 +1215,7 @@ Proof.
 Qed.
 
 Lemma set_calls_inv0 s cl : Inv0 s ->
-  NoDup (map a_thr cl) -> (forall a, In a cl -> exists k, getc s (a_conn a) = Some k /\ k_alive k = true /\ k_st k <> Connecting) ->
+  NoDup (map a_thr cl) -> (forall a, In a cl -> exists k, getc s (a_conn a) = Some k /\ k_alive k = true /\ k_st k <> Connecting /\ a_api a <> ADtor) ->
   Inv0 (set_calls s cl).
 Proof.
   intros [G HC] Hnd Hal. split.
@@ -1228,7 +1228,7 @@ Proof.
     assert (Hz : count_calls c cl = 0).
     { unfold count_calls. destruct (filter (fun a => a_conn a =? c) cl) as [|a r] eqn:Ef; [reflexivity|].
       assert (Hin : In a (filter (fun a => a_conn a =? c) cl)) by (rewrite Ef; left; reflexivity).
-      apply filter_In in Hin as [Hin Hc1]. apply Nat.eqb_eq in Hc1. destruct (Hal a Hin) as (k1 & Hk1 & Ha1 & _).
+      apply filter_In in Hin as [Hin Hc1]. apply Nat.eqb_eq in Hc1. destruct (Hal a Hin) as (k1 & Hk1 & Ha1 & _ & _).
       rewrite Hc1, Hg in Hk1. injection Hk1 as <-. congruence. }
     lia.
 Qed.
@@ -1243,28 +1243,30 @@ Qed.
 
 Lemma step_XBegin s u c a : Inv s -> step_ok s (XBegin u c a).
 Proof.
-  intros [HI HH]. unfold step_ok, step. destruct (find_call u (s_calls s)) eqn:Ef; [exact I|].
+  intros [HI HH]. unfold step_ok, step. cbn [andb]. destruct (is_dtor a) eqn:Ed; [exact I|].
+  destruct (find_call u (s_calls s)) eqn:Ef; [exact I|].
   unfold on_conn. destruct (getc s c) as [k|] eqn:Hg; [|exact I].
   destruct (k_alive k && negb (cstate_eqb (k_st k) Connecting)) eqn:E; [|exact I]. apply andb_prop in E as [Ha Hnc].
   apply negb_true_iff, cs_eqb_false in Hnc.
   cbn [ret]. destruct (gi_calls s (proj1 HI)) as [Hnd Hal]. split.
   - apply (set_calls_inv0 s _ HI).
     + rewrite map_app. cbn [map a_thr]. apply nodup_snoc; [exact Hnd|]. apply find_call_none, Ef.
-    + intros x Hx. apply in_app_or in Hx as [Hx|[<-|[]]]; [apply Hal, Hx|]. exists k. auto.
+    + intros x Hx. apply in_app_or in Hx as [Hx|[<-|[]]]; [apply Hal, Hx|]. exists k. cbn [a_conn a_api]. repeat split; auto.
+      intros ->. discriminate.
   - apply (held_set_calls s _ HH). intros c1. rewrite count_calls_app. lia.
 Qed.
 
-Lemma calls_replace s u a a' : GInv s -> find_call u (s_calls s) = Some a -> a_thr a' = u -> a_conn a' = a_conn a ->
+Lemma calls_replace s u a a' : GInv s -> find_call u (s_calls s) = Some a -> a_thr a' = u -> a_conn a' = a_conn a -> a_api a' = a_api a ->
   NoDup (map a_thr (drop_call u (s_calls s) ++ [a'])) /\
-  (forall x, In x (drop_call u (s_calls s) ++ [a']) -> exists k, getc s (a_conn x) = Some k /\ k_alive k = true /\ k_st k <> Connecting) /\
+  (forall x, In x (drop_call u (s_calls s) ++ [a']) -> exists k, getc s (a_conn x) = Some k /\ k_alive k = true /\ k_st k <> Connecting /\ a_api x <> ADtor) /\
   (forall c, count_calls c (drop_call u (s_calls s) ++ [a']) = count_calls c (s_calls s)).
 Proof.
-  intros G Hf Ht Hc. destruct (gi_calls s G) as [Hnd Hal]. destruct (find_call_some _ _ _ Hf) as [Hin Hthr].
+  intros G Hf Ht Hc Hapi. destruct (gi_calls s G) as [Hnd Hal]. destruct (find_call_some _ _ _ Hf) as [Hin Hthr].
   destruct (drop_call_nodup u _ Hnd) as [N1 N2]. split; [|split].
   - rewrite map_app. cbn [map]. rewrite Ht. apply nodup_snoc; assumption.
   - intros x Hx. apply in_app_or in Hx as [Hx|[<-|[]]].
     + apply drop_call_in in Hx as [Hx _]. apply Hal, Hx.
-    + rewrite Hc. apply Hal, Hin.
+    + rewrite Hc, Hapi. apply Hal, Hin.
   - intros c. rewrite count_calls_app. pose proof (count_calls_drop c u _ a Hnd Hf) as E.
     unfold count_calls at 2. cbn [filter]. rewrite Hc. destruct (a_conn a =? c); cbn [length]; lia.
 Qed.
@@ -1274,15 +1276,17 @@ Proof.
   intros [HI HH]. unfold step_ok, step. destruct (find_call u (s_calls s)) as [a|] eqn:Ef; [|exact I].
   destruct (a_stored a); [exact I|].
   destruct (find_call_some _ _ _ Ef) as [Hin Hthr].
-  destruct (gi_calls s (proj1 HI)) as [Hnd Hal]. destruct (Hal a Hin) as (k & Hg & Ha & Hnc). rewrite Hg.
-  destruct (true && negb (Bool.eqb (api_test (a_api a) k) (a_loaded a))) eqn:Eg; [exact I|].
-  cbn [andb] in Eg. apply negb_false_iff, eqb_prop in Eg.
+  destruct (gi_calls s (proj1 HI)) as [Hnd Hal]. destruct (Hal a Hin) as (k & Hg & Ha & Hnc & Hnd'). rewrite Hg.
+  assert (Edt : is_dtor (a_api a) = false) by (destruct (a_api a); try reflexivity; congruence). rewrite Edt.
+  destruct (true && a_loaded a && negb (api_test (a_api a) k)) eqn:Eg; [exact I|].
+  cbn [andb] in Eg.
   set (a' := mkCall u (a_conn a) (a_api a) (a_loaded a) true).
-  destruct (calls_replace s u a a' (proj1 HI) Ef eq_refl eq_refl) as (C1 & C2 & C3).
+  destruct (calls_replace s u a a' (proj1 HI) Ef eq_refl eq_refl eq_refl) as (C1 & C2 & C3).
   pose proof (set_calls_inv0 s _ HI C1 C2) as HI1.
   pose proof (held_set_calls s _ HH (fun c => Nat.eq_le_incl _ _ (eq_sym (C3 c)))) as HH1.
   cbn [ret]. fold a'. destruct (a_loaded a) eqn:El; [|split; assumption].
   destruct (api_stores (a_api a)) eqn:Es; [|split; assumption]. cbn [andb].
+  cbn [andb] in Eg. apply negb_false_iff in Eg.
   (* the test still holds: the connection is up *)
   assert (Hup : up_k k).
   { unfold api_test in Eg. destruct (a_api a); try discriminate Es;
@@ -1304,7 +1308,8 @@ Proof.
   intros [HI HH]. unfold step_ok, step. destruct (find_call u (s_calls s)) as [a|] eqn:Ef; [|exact I].
   destruct (negb (a_stored a)); [exact I|].
   destruct (find_call_some _ _ _ Ef) as [Hin Hthr].
-  destruct (gi_calls s (proj1 HI)) as [Hnd Hal]. destruct (Hal a Hin) as (k & Hg & Ha & Hnc). rewrite Hg.
+  destruct (gi_calls s (proj1 HI)) as [Hnd Hal]. destruct (Hal a Hin) as (k & Hg & Ha & Hnc & Hnd'). rewrite Hg.
+  assert (Edt : is_dtor (a_api a) = false) by (destruct (a_api a); try reflexivity; congruence). rewrite Edt.
   match goal with |- match (if ?b then _ else _) with _ => _ end => destruct b eqn:Eg end; [exact I|].
   set (s1 := set_calls s (drop_call u (s_calls s))).
   assert (HI1 : Inv0 s1).
@@ -1312,9 +1317,9 @@ Proof.
     intros x Hx. apply drop_call_in in Hx as [Hx _]. apply Hal, Hx. }
   assert (Hg1 : getc s1 (a_conn a) = Some k) by exact Hg.
   pose proof (proj2 HI1 _ k Hg1) as HCk.
-  assert (Hpl : forall t, task_conn t = a_conn a -> t <> TOther -> (forall c', t <> TRemove c') -> (forall c', t <> TEstablish c') ->
+  assert (Hpl : forall t, task_conn t = a_conn a -> t <> TOther -> (forall c', t <> TRemove c') -> (forall c', t <> TEstablish c') -> (forall c', t <> TSetCb c') ->
                 raw_pinned t = true -> placed s1 (k_loop k) t).
-  { intros t Ht Hno Hnr Hne Hp. split; [exact Hp|]. split; [intros c0 Hx; exfalso; apply (Hne c0 Hx)|]. destruct t; try (exists k; rewrite Ht; auto); try congruence.
+  { intros t Ht Hno Hnr Hne Hns Hp. split; [exact Hp|]. split; [intros c0; split; [intros Hx; exfalso; apply (Hne c0 Hx)|apply Hns]|]. destruct t; try (exists k; rewrite Ht; auto); try congruence.
     all: exfalso; eapply Hnr; reflexivity. }
   apply finish_ok. cbn [ret].
   destruct (a_loaded a) eqn:El; [|exact HI1].
@@ -1331,6 +1336,7 @@ Proof.
     apply enq_plain; [exact HI1|reflexivity|apply Hpl; cbn; auto; discriminate|]. intros _. exists k. auto.
   - cbn [andb] in Eg. apply negb_false_iff in Eg. subst pin.
     apply enq_plain; [exact HI1|reflexivity|apply Hpl; cbn; auto; discriminate|]. intros _. exists k. auto.
+  - discriminate Edt.
 Qed.
 
 (* ---- the loop's batch ------------------------------------------------------------------------------ *)
@@ -1678,7 +1684,7 @@ Proof.
   - exact G1.
   - exact Gr.
   - intros l v t Hv Hin. apply (placed_mono s _ l t Hext). apply (G2 l v t Hv Hin).
-  - split; [exact G3|]. intros a Hin. destruct (G3' a Hin) as (k1 & Hk1 & Ha1 & Hs1).
+  - split; [exact G3|]. intros a Hin. destruct (G3' a Hin) as (k1 & Hk1 & Ha1 & Hs1 & Hd1).
     change (getc (clear_cli (put s c k0)) (a_conn a)) with (getc (put s c k0) (a_conn a)).
     destruct (Nat.eq_dec c (a_conn a)) as [E|Hn].
     + exists k0. rewrite <- E, getc_put_eq by (eapply getc_lt, Hg). split; [reflexivity|]. rewrite <- E in Hk1.
@@ -1747,7 +1753,7 @@ Proof.
       apply (Hfin s2 k2); try (cbn; tauto); try reflexivity; try (cbn; congruence).
       * apply ginv_enq.
         -- apply (ginv_put_nc s1 c k1 k2 G1 Hg1 eq_refl eq_refl (fun H => H)). exact Hncli.
-        -- split; [reflexivity|]. split; [intros ? Hx; discriminate Hx|]. exists k2. rewrite getc_put_eq by exact Hlt1. split; [reflexivity|]. split; [reflexivity|discriminate].
+        -- split; [reflexivity|]. split; [intros ?; split; [intros Hx; discriminate Hx|discriminate]|]. exists k2. rewrite getc_put_eq by exact Hlt1. split; [reflexivity|]. split; [reflexivity|discriminate].
       * intros c1 Hn. split.
         -- unfold s2. rewrite getc_enq. unfold s1. rewrite !getc_put_neq by auto. reflexivity.
         -- apply (same_for_trans s s1 s2 c1); [apply same_for_put|]. apply same_for_put_enq; [exact Hn|]. cbn. apply Nat.eqb_refl.
@@ -1765,7 +1771,7 @@ Proof.
       destruct (enq_fields s1 0 t) as (N1 & N2 & N3 & N4 & N5 & N6).
       exists s2. split; [reflexivity|].
       apply (Hfin s2 k1); try reflexivity; try tauto; try congruence.
-      * apply ginv_enq; [exact G1|]. split; [reflexivity|]. split; [intros ? Hx; discriminate Hx|]. split; [reflexivity|]. unfold s1. rewrite length_conns_put. exact Hlt.
+      * apply ginv_enq; [exact G1|]. split; [reflexivity|]. split; [intros ?; split; [intros Hx; discriminate Hx|discriminate]|]. split; [reflexivity|]. unfold s1. rewrite length_conns_put. exact Hlt.
       * intros c1 Hn. split.
         -- unfold s2. rewrite getc_enq. unfold s1. rewrite getc_put_neq by auto. reflexivity.
         -- apply same_for_put_enq; [exact Hn|]. cbn. apply Nat.eqb_refl.
@@ -1794,7 +1800,7 @@ Proof.
     apply (Hfin s2 k2); try (cbn; tauto); try reflexivity; try (cbn; congruence).
     + apply ginv_enq.
       * rewrite Es1c, Hput2. apply (ginv_clear_cli s c k k2 G Hcc Hg); cbn; auto.
-      * split; [reflexivity|]. split; [intros ? Hx; discriminate Hx|]. exists k2. split; [|cbn; split; [congruence|discriminate]].
+      * split; [reflexivity|]. split; [intros ?; split; [intros Hx; discriminate Hx|discriminate]|]. exists k2. split; [|cbn; split; [congruence|discriminate]].
         change (getc s1c c) with (getc (put s1 c k2) c). apply getc_put_eq, Hlt1.
     + intros c1 Hn. split.
       * unfold s2. rewrite getc_enq. change (getc s1c c1) with (getc (put s1 c k2) c1). unfold s1. rewrite !getc_put_neq by auto. reflexivity.
@@ -1819,7 +1825,7 @@ Proof.
     destruct (enq_fields s1 (k_loop k1) t) as (N1 & N2 & N3 & N4 & N5 & N6).
     exists s2. split; [reflexivity|].
     apply (Hfin s2 k1); try reflexivity; try tauto; try congruence.
-    + apply ginv_enq; [exact G1|]. split; [reflexivity|]. split; [intros ? Hx; discriminate Hx|]. exists k1. split; [exact Hg1|]. split; [reflexivity|discriminate].
+    + apply ginv_enq; [exact G1|]. split; [reflexivity|]. split; [intros ?; split; [intros Hx; discriminate Hx|discriminate]|]. exists k1. split; [exact Hg1|]. split; [reflexivity|discriminate].
     + intros c1 Hn. split.
       * unfold s2. rewrite getc_enq. unfold s1. rewrite getc_put_neq by auto. reflexivity.
       * apply same_for_put_enq; [exact Hn|]. cbn. apply Nat.eqb_refl.
@@ -1964,7 +1970,7 @@ Proof.
         rewrite E4, E5, E2, E3. exact P. }
     cbn [ret]. apply finish_ok. destruct wc; [|exact HI1].
     apply enq_plain; [exact HI1|reflexivity| |].
-    + split; [reflexivity|]. split; [intros ? Hx; discriminate Hx|]. exists k2. rewrite getc_put_eq by (eapply getc_lt, Hg). split; [reflexivity|]. split; [congruence|].
+    + split; [reflexivity|]. split; [intros ?; split; [intros Hx; discriminate Hx|discriminate]|]. exists k2. rewrite getc_put_eq by (eapply getc_lt, Hg). split; [reflexivity|]. split; [congruence|].
       intros _. rewrite E1, F1. destruct Hup; congruence.
     + intros _. exists k2. rewrite getc_put_eq by (eapply getc_lt, Hg). split; [reflexivity|congruence].
 Qed.
@@ -2016,7 +2022,7 @@ Proof.
   apply (invx_close s1 s2 c HX).
   - apply ginv_enq.
     + apply (ginv_put_nc s1 c k k2 (proj1 HX) Hg1 eq_refl eq_refl (fun H => H) Hncli).
-    + split; [reflexivity|]. split; [intros ? Hx; discriminate Hx|]. exists k2. rewrite getc_put_eq by exact Hlt1. split; [reflexivity|]. split; [reflexivity|discriminate].
+    + split; [reflexivity|]. split; [intros ?; split; [intros Hx; discriminate Hx|discriminate]|]. exists k2. rewrite getc_put_eq by exact Hlt1. split; [reflexivity|]. split; [reflexivity|discriminate].
   - intros c1 Hn. split.
     + unfold s2. rewrite getc_enq, getc_put_neq by auto. reflexivity.
     + apply same_for_put_enq; [exact Hn|]. cbn. apply Nat.eqb_refl.
@@ -2181,6 +2187,10 @@ Proof.
     unfold run_task, t. cbv zeta. change (getc s1 c) with (getc s c). rewrite Hg. cbn [ret]. apply finish_ok.
     apply (put_core s1 c k _ HI1 HH1 Hg). unfold same_core. cbn. repeat split.
   - (* TOther *) destruct HI as [HI HH]. cbn [run_task ret]. apply finish_ok. apply (pop_plain_inv s l v _ rest HI Hv Hb eq_refl).
+  - (* TSetCb: only queued by a foreign ~TcpClient, which the hypotheses exclude *)
+    exfalso. destruct HI as [HI HH].
+    assert (Hin : In (TSetCb c) (q_all v)) by (unfold q_all; rewrite Hb; apply in_or_app; right; left; reflexivity).
+    destruct (gi_placed s (proj1 HI) l v _ Hv Hin) as [_ [Hne _]]. apply (proj2 (Hne c)). reflexivity.
 Qed.
 
 (* ---- creating a connection -------------------------------------------------------------------------- *)
@@ -2244,7 +2254,7 @@ Proof.
   - exact G1.
   - exact Hrr.
   - intros l v t Hv Hin. apply (placed_mono s _ l t Hext), (G2 l v t Hv Hin).
-  - split; [exact G3|]. intros a Hin. destruct (G3' a Hin) as (k1 & Hk1 & H1). exists k1.
+  - split; [exact G3|]. intros a Hin. destruct (G3' a Hin) as (k1 & Hk1 & H1 & H1' & H1''). exists k1.
     rewrite getc_add_old by (eapply getc_lt, Hk1). auto.
   - intros c Hc. cbn [add_conn s_cliconn s_cli] in *. destruct Hcc as [-> |(E & -> & Hcli & H1 & H2 & H3 & H4)].
     + destruct (G4 c Hc) as (Hs & k1 & Hk1 & Hr). split; [exact Hs|]. exists k1. rewrite getc_add_old by (eapply getc_lt, Hk1). auto.
@@ -2312,7 +2322,7 @@ Proof.
     destruct (getl_valid s io G Hio) as [v Hv]. assert (Hv1 : getl s1 io = Some v) by exact Hv.
     set (t := TEstablish c). destruct (enq_fields s1 io t) as (N1 & N2 & N3 & N4 & N5 & N6).
     apply (Hclose (enq s1 io t)).
-    + apply ginv_enq; [exact G1|]. split; [reflexivity|]. split; [intros c0 _; exact Eio|].
+    + apply ginv_enq; [exact G1|]. split; [reflexivity|]. split; [intros c0; split; [intros _; exact Eio|discriminate]|].
       exists k0. split; [apply getc_add_new|]. split; [reflexivity|discriminate].
     + intros c1 Hn. split; [apply getc_enq|]. apply same_for_enq. cbn. apply Nat.eqb_neq. auto.
     + intros k2 Hk2. rewrite getc_enq in Hk2. unfold s1, c in Hk2. rewrite getc_add_new in Hk2. injection Hk2 as <-.
@@ -2394,7 +2404,7 @@ Qed.
 
 Lemma ginv_cli_off s : GInv s -> forall cs ls, length ls = length (s_loops s) ->
   (forall l v t, nth_error ls l = Some v -> In t (q_all v) -> placed (mkSys (s_nio s) (s_readd s) cs ls (s_rr s) (s_srv s) false None (s_calls s)) l t) ->
-  (forall a, In a (s_calls s) -> exists k, nth_error cs (a_conn a) = Some k /\ k_alive k = true /\ k_st k <> Connecting) ->
+  (forall a, In a (s_calls s) -> exists k, nth_error cs (a_conn a) = Some k /\ k_alive k = true /\ k_st k <> Connecting /\ a_api a <> ADtor) ->
   GInv (mkSys (s_nio s) (s_readd s) cs ls (s_rr s) (s_srv s) false None (s_calls s)).
 Proof.
   intros [G1 Gr G2 [G3 G3'] G4] cs ls Hlen Hpl Hcalls. constructor; cbn; auto.
@@ -2444,10 +2454,10 @@ Proof.
       - apply (ginv_cli_off s G); [exact Hlen| |].
         + intros l v t Hv Hin. destruct (Htasks l v t Hv Hin) as [(v' & Hv' & Hin')|[-> ->]].
           * apply (placed_mono s s' l t Hext), (gi_placed s G l v' t Hv' Hin').
-          * split; [reflexivity|]. split; [intros ? Hx; discriminate Hx|]. exists kf. unfold getc, s'. cbn.
+          * split; [reflexivity|]. split; [intros ?; split; [intros Hx; discriminate Hx|discriminate]|]. exists kf. unfold getc, s'. cbn.
             rewrite nth_upd_eq by exact Hlt. split; [reflexivity|]. split; [exact E6|]. intros _. destruct Hupf; congruence.
-        + intros a Hin. destruct (proj2 (gi_calls s G) a Hin) as (k1 & Hk1 & Ha1 & Hs1). destruct (Nat.eq_dec c (a_conn a)) as [E|Hn].
-          * exists kf. rewrite <- E, nth_upd_eq by exact Hlt. split; [reflexivity|]. split; [exact E7|]. destruct Hupf; congruence.
+        + intros a Hin. destruct (proj2 (gi_calls s G) a Hin) as (k1 & Hk1 & Ha1 & Hs1 & Hd1). destruct (Nat.eq_dec c (a_conn a)) as [E|Hn].
+          * exists kf. rewrite <- E, nth_upd_eq by exact Hlt. split; [reflexivity|]. split; [exact E7|]. split; [destruct Hupf; congruence|exact Hd1].
           * exists k1. rewrite nth_upd_neq by exact Hn. auto.
       - intros c1 Hn. split; [unfold getc, s'; cbn; apply nth_upd_neq; auto|apply Hfr, Hn].
       - intros k2 Hk2. unfold getc, s' in Hk2. cbn in Hk2. rewrite nth_upd_eq in Hk2 by exact Hlt. injection Hk2 as <-.
@@ -2517,7 +2527,7 @@ Proof.
         apply (same_for_cinv s s1 c k); [|exact Hg|exact Hg|apply HC, Hg].
         constructor; try reflexivity. cbn. rewrite Hcc. split; intros [_ Hx]; discriminate. }
     apply enq_plain; [exact HI1|reflexivity| |discriminate].
-    split; [reflexivity|]. split; [intros ? Hx; discriminate Hx|exact I].
+    split; [reflexivity|]. split; [intros ?; split; [intros Hx; discriminate Hx|discriminate]|exact I].
 Qed.
 
 (* ---- ~TcpServer ------------------------------------------------------------------------------------- *)
@@ -2619,7 +2629,7 @@ Proof.
       { clear - EL HE. rewrite HE in EL. induction (q_todo v) as [|x l IH]; [cbn in EL; lia|]. rewrite cnt_cons in EL.
         destruct (isE c x) eqn:E; [exists x; split; [left; reflexivity|exact E]|]. destruct IH as (t & Ht & Et); [lia|]. exists t. split; [right; exact Ht|exact Et]. }
       destruct Hex as (t & Ht & Et). assert (Hin : In t (q_all v)) by (rewrite q_all_todo; apply in_or_app; right; exact Ht).
-      destruct (gi_placed s G (k_loop k) v t Hv Hin) as [_ [Hne _]]. destruct t; cbn in Et; try discriminate. apply (Hne c0 eq_refl).
+      destruct (gi_placed s G (k_loop k) v t Hv Hin) as [_ [Hne _]]. destruct t; cbn in Et; try discriminate. apply (proj1 (Hne c0) eq_refl).
     - right. split; [left; exact Est|apply Hph].
     - right. split; [right; exact Est|apply Hph].
     - exfalso. destruct Hph as (_ & [(_ & _ & Hx & _)|[(_ & Hx & _)|(_ & Hx & _)]]); [lia|congruence|congruence]. }
@@ -2675,7 +2685,7 @@ Proof.
     destruct (enq_fields s1 (k_loop k) t) as (N1 & N2 & N3 & N4 & N5 & N6).
     exists s2, []. split; [reflexivity|]. split; [|unfold s2; rewrite conns_enq; apply length_conns_put].
     apply Hrest.
-    + apply ginv_enq; [exact G1|]. split; [reflexivity|]. split; [intros ? Hx; discriminate Hx|]. exists ku. split; [exact Hg1|]. split; [reflexivity|discriminate].
+    + apply ginv_enq; [exact G1|]. split; [reflexivity|]. split; [intros ?; split; [intros Hx; discriminate Hx|discriminate]|]. exists ku. split; [exact Hg1|]. split; [reflexivity|discriminate].
     + apply has_task_enq; [exact Hnr|reflexivity].
     + apply has_task_enq; [exact Hnf|reflexivity].
     + unfold s2. rewrite N3. exact Hsrv.
@@ -3108,6 +3118,8 @@ Proof.
   - destruct (getc s c) as [k|] eqn:Hg; [|exact I]. apply good_ret.
     apply lk_put. intros k0 Hk0. rewrite Hg in Hk0. injection Hk0 as <-. reflexivity.
   - apply good_ret, lk_refl.
+  - destruct (getc s c) as [k|] eqn:Hg; [|exact I]. destruct (k_alive k); [|exact I]. apply good_ret.
+    apply lk_put. intros k0 Hk0. rewrite Hg in Hk0. injection Hk0 as <-. reflexivity.
 Qed.
 
 Lemma good_ev_step strict s c e : good s (ev_step strict s c e).
@@ -3158,17 +3170,28 @@ Proof.
   - apply good_on_conn. intros k Hg. apply good_ret. apply lk_put. intros k0 Hk0. rewrite Hg in Hk0. injection Hk0 as <-. reflexivity.
   - destruct (getc s c) as [k|] eqn:Hg; [|exact I]. destruct (k_urefs k); [exact I|]. destruct (_ && _ && _ && _ && _); [exact I|].
     apply good_finish, good_ret. apply lk_put. intros k0 Hk0. rewrite Hg in Hk0. injection Hk0 as <-. reflexivity.
-  - destruct (find_call u (s_calls s)); [exact I|]. apply good_on_conn. intros k Hg. apply good_ret, lk_same_conns. reflexivity.
+  - destruct (strict && is_dtor a); [exact I|]. destruct (find_call u (s_calls s)); [exact I|].
+    destruct (is_dtor a); [destruct (_ && _); [|exact I]|]; apply good_on_conn; intros k Hg; apply good_ret, lk_same_conns; reflexivity.
   - destruct (find_call u (s_calls s)) as [a|]; [|exact I]. destruct (a_stored a); [exact I|].
-    destruct (getc s (a_conn a)) as [k|] eqn:Hg; [|exact I]. destruct (_ && _); [exact I|]. apply good_ret.
+    destruct (getc s (a_conn a)) as [k|] eqn:Hg; [|exact I]. destruct (is_dtor (a_api a)).
+    { apply good_ret. match goal with |- lk s (if _ then force_close ?s2 _ else _) => assert (L : lk s s2) by
+        (match goal with |- lk s (enq ?s1 _ _) => apply (lk_trans s s1); [apply lk_same_conns; reflexivity|apply lk_enq] end) end.
+      destruct (a_loaded a); [eapply lk_trans; [exact L|apply lk_force_close]|exact L]. }
+    destruct (_ && _ && _); [exact I|]. apply good_ret.
     destruct (_ && _); [|apply lk_same_conns; reflexivity].
     match goal with |- lk s (put ?s1 _ _) => apply (lk_trans s s1); [apply lk_same_conns; reflexivity|] end.
     apply lk_put. intros k0 Hk0. change (getc s (a_conn a) = Some k0) in Hk0.
     rewrite Hg in Hk0. injection Hk0 as <-. reflexivity.
   - destruct (find_call u (s_calls s)) as [a|]; [|exact I]. destruct (negb (a_stored a)); [exact I|].
-    destruct (getc s (a_conn a)) as [k|] eqn:Hg; [|exact I]. destruct (_ && _ && _ && _); [exact I|].
+    destruct (getc s (a_conn a)) as [k|] eqn:Hg; [|exact I]. destruct (is_dtor (a_api a)).
+    { apply good_finish, good_ret.
+      match goal with |- lk s (set_cli ?s2 _ _) => apply (lk_trans s s2); [|apply lk_same_conns; reflexivity] end.
+      match goal with |- lk s (put ?s1 _ _) => apply (lk_trans s s1); [apply lk_same_conns; reflexivity|] end.
+      apply lk_put. intros k0 Hk0. change (getc s (a_conn a) = Some k0) in Hk0. rewrite Hg in Hk0. injection Hk0 as <-. reflexivity. }
+    destruct (_ && _ && _ && _); [exact I|].
     apply good_finish, good_ret. destruct (a_loaded a); [|apply lk_same_conns; reflexivity].
-    destruct (a_api a); match goal with |- lk s (enq ?s1 _ _) => apply (lk_trans s s1); [apply lk_same_conns; reflexivity|apply lk_enq] end.
+    destruct (a_api a); try (apply lk_same_conns; reflexivity);
+      match goal with |- lk s (enq ?s1 _ _) => apply (lk_trans s s1); [apply lk_same_conns; reflexivity|apply lk_enq] end.
 Qed.
 
 (* every connection / message callback is run by a step of the connection's own loop *)
@@ -3229,6 +3252,16 @@ Proof. split; vm_compute; reflexivity. Qed.
 Lemma W_f15 : run false (init_sys 0 true) w_f15 = Fault /\ run true (init_sys 0 true) w_f15 = Rejected /\
   run false (init_sys 0 false) w_f15 = Rejected.
 Proof. repeat split; vm_compute; reflexivity. Qed.
+
+(* H6 (F-13, recorded under C12/C08): ~TcpClient on a foreign thread; the peer's close is processed after the client
+   object is gone and before the queued setCloseCallback ran: TcpClient::removeConnection runs on the freed client *)
+Definition w_f13 : list op :=
+  [CliConnect; XBegin 1 0 ADtor; XStore 1; XEnq 1 false; Ev 0 KEof].
+Lemma W_f13 : run false (init_sys 0 false) w_f13 = Fault /\ run true (init_sys 0 false) w_f13 = Rejected /\
+  (exists s o, run false (init_sys 0 false) [CliConnect; XBegin 1 0 ADtor; XStore 1; XEnq 1 false; Swap 0; Run 0 true true; Run 0 true true; EndBatch 0;
+                                            Swap 0; Run 0 true true; EndBatch 0] = Ok (s, o) /\
+     o = [OUp 0 0; ODown 0 0; ODtor 0 0 true]).
+Proof. repeat split; try (vm_compute; reflexivity). vm_compute. eexists _, _. split; reflexivity. Qed.
 
 (* with the fixed poller (F-15) a registered descriptor always has interest: the HUP hypothesis is not needed *)
 Lemma S02_inset_has_interest : forall s c k, sreach s -> s_readd s = false -> getc s c = Some k -> k_alive k = true ->
